@@ -27,6 +27,15 @@ def bumpy(x):
     return s + 0.1 * abs(x[0] * x[-1])
 
 
+def wall(x):
+    """Rosenbrock valley behind a wall: +inf on the half-space x0 + x1 < 0 (members that start there keep the
+    solver's initial 'inf' energy until a trial lands on the feasible side)"""
+    if float(x[0]) + float(x[1]) < 0.0:
+        CALLS[0] += 1
+        return float("inf")
+    return rosen(x)
+
+
 def cons_fold(x):
     """pure python constraint: first coordinate non-negative, last one not above 1.5 (idempotent)"""
     x = [float(v) for v in x]
